@@ -38,7 +38,8 @@ METHOD.  Every function is executed symbolically ONCE PER GRID CLASS (nine runs)
                    untranslated.  A class for which no branch returns makes `<function>.<class>` untranslated.
   `type(x) is CellVariable`   decided from the kind of the value (the variants of `transientTerm`)
   objects          FaceVariable(mesh, X, Y, Z): the three arrays are stored BY REFERENCE (checked against `__init__` of
-                   face.py: `_xvalue = args[0]` ... `self._xvalue = _xvalue`); `np.array([])` is the empty component and must
+                   face.py: `_xvalue = args[0]` ... `self._xvalue = _xvalue`, or `np.asarray(_xvalue[, dtype=float])`, which is
+                   the same buffer for a float array and a float copy of the same values otherwise); `np.array([])` is the empty component and must
                    be given exactly for the directions the grid does not have; component shapes are CHECKED to be
                    (Nx+1, Ny, Nz), (Nx, Ny+1, Nz), (Nx, Ny, Nz+1).  `F._xvalue[sel] = e` is the in-place assignment of tupw.
                    CellVariable(mesh, v, <BC>): a DERIVED cell variable whose interior is v (an array of the interior
@@ -74,7 +75,7 @@ A differential test (the generated formulas evaluated over ℚ by Lean against t
   non-finite Python entries are the harmonic means whose divisor vanishes) is described in the report of T-avg's author.
 tnum.py / tupw.py are not edited; `tupw.rcond` is monkey-patched (conditions may contain `∨`).
 """
-import ast, sys, os, json
+import ast, sys, os, json, copy
 from fractions import Fraction
 
 sys.path.insert(0, os.path.dirname(os.path.abspath(__file__)))
@@ -145,7 +146,7 @@ class Ctx:
         src = os.path.join(repo, "src", "pyfvtool")
         self.trees = {}
         for f in ("mesh", "averaging", "source", "calculus", "cell", "face"):
-            self.trees[f] = ast.parse(open(os.path.join(src, f + ".py")).read())
+            self.trees[f] = tnum.note_module(ast.parse(open(os.path.join(src, f + ".py")).read()))
         self.mesh = MeshInfo(self.trees["mesh"])
         self.cellcls = self.find_class("cell", "CellVariable")
         self.face_by_ref = self.check_face_init()
@@ -191,7 +192,12 @@ class Ctx:
                 return "FaceVariable.__init__: the three-argument branch does not bind args[0..2]"
             tail = [ast.unparse(s) for s in fn.body if isinstance(s, ast.Assign)]
             for a in AXES:
-                if tail.count(f"self._{a}value = _{a}value") != 1:
+                # `np.asarray(x, dtype=float)` / `np.asarray(x)` is x itself for a float array (same buffer) and a
+                # float copy with the same values otherwise: the same VALUE either way
+                ok = [f"self._{a}value = _{a}value", f"self._{a}value = np.asarray(_{a}value, dtype=float)",
+                      f"self._{a}value = np.asarray(_{a}value)"]
+                stores = [t for t in tail if t.startswith(f"self._{a}value = ")]
+                if len(stores) != 1 or stores[0] not in ok:
                     return f"FaceVariable.__init__: self._{a}value is not _{a}value"
             if "self.domain = mesh" not in tail:
                 return "FaceVariable.__init__: self.domain is not mesh"
@@ -228,6 +234,7 @@ class AInterp(tupw.UInterp):
                 raise Bad("statement after return")
             if isinstance(st, ast.Expr) and isinstance(st.value, ast.Constant) and isinstance(st.value.value, str):
                 continue
+            st = tnum.plain_assign(st)
             if isinstance(st, ast.Assign):
                 self.assign(st)
             elif isinstance(st, ast.AugAssign):
@@ -259,6 +266,8 @@ class AInterp(tupw.UInterp):
         if (isinstance(node, ast.Call) and isinstance(node.func, ast.Name) and node.func.id == "type"
                 and len(node.args) == 1 and not node.keywords):
             return node.args[0]
+        if isinstance(node, ast.Attribute) and node.attr == "__class__" and "__class__" not in tnum.SHADOWED:
+            return node.value               # `x.__class__` is `type(x)` (no class of the package defines `__class__`)
         return None
 
     def atom(self, t):
@@ -351,7 +360,15 @@ class AInterp(tupw.UInterp):
 
     def augassign(self, st):
         if isinstance(st.target, ast.Subscript) and isinstance(st.target.value, ast.Attribute):
-            raise Bad(f"augmented assignment target {ast.unparse(st.target)}")
+            # `F._xvalue[sel] op= e` is `F._xvalue[sel] = F._xvalue[sel] op e` (the reading tupw gives `X[sel] op= e`)
+            if type(st.op) not in (ast.Add, ast.Sub, ast.Mult, ast.Div):
+                raise Bad(f"augmented assignment {type(st.op).__name__}")
+            load = copy.deepcopy(st.target)
+            load.ctx = ast.Load()
+            new = ast.Assign(targets=[st.target], value=ast.BinOp(left=load, op=st.op, right=st.value))
+            ast.copy_location(new, st)
+            ast.fix_missing_locations(new)
+            return self.assign(new)
         return super().augassign(st)
 
     # ---- scalar loops
@@ -361,9 +378,13 @@ class AInterp(tupw.UInterp):
         it = st.iter
         if st.orelse or not isinstance(st.target, ast.Name):
             raise Bad(f"for statement (line {st.lineno})")
-        if not (isinstance(it, ast.Call) and ast.unparse(it.func) == "np.arange" and len(it.args) == 2 and not it.keywords):
+        # np.arange(a, b) / range(a, b) = a .. b-1;  np.arange(b) / range(b) = 0 .. b-1  (integer bounds, no step)
+        fname = ast.unparse(it.func) if isinstance(it, ast.Call) else None
+        if not (fname in ("np.arange", "range") and len(it.args) in (1, 2) and not it.keywords) \
+                or (fname == "range" and ("range" in self.env or "range" in self.pars or "range" in tnum.SHADOWED)):
             raise Bad(f"for ... in {ast.unparse(it)[:40]}: not np.arange(a, b)")
-        lo, hi = self.ev(it.args[0]), self.ev(it.args[1])
+        lo = Poly() if len(it.args) == 1 else self.ev(it.args[0])
+        hi = self.ev(it.args[-1])
         if not (isinstance(lo, Poly) and isinstance(hi, Poly)):
             raise Bad("np.arange bounds are not integers")
         lo = lo.constval()
@@ -614,8 +635,11 @@ class AInterp(tupw.UInterp):
         spec = self.parse_index(items, txt)
         inner = getattr(base, "_derived", None)
         if inner is not None:
+            # the interior: `1:-1` or, the array having the ghosted length N+2 along the axis, `1:N+1`
             ok = len(spec) == len(base.dims) and all(
-                s is not None and s[0] == "sl" and s[1] == ONE and s[2] == Poly.const(-1) for s in spec)
+                s is not None and s[0] == "sl" and s[1] == ONE
+                and (s[2] == Poly.const(-1) or (L == Poly.var(a) + Poly.const(2) and s[2] == Poly.var(a) + ONE))
+                for s, (a, L) in zip(spec, base.dims))
             if not ok:
                 raise Bad(f"{txt}: only the interior `_value[1:-1, ...]` of a derived CellVariable is modelled")
             return Arr(inner.dims, inner.fn)
@@ -678,17 +702,21 @@ class AInterp(tupw.UInterp):
         return DCell(Arr(dims, (lambda pos: f(pos)) if v.dims else (lambda pos: f([]))))
 
     def csr_any(self, node):
-        if len(node.args) == 1 and isinstance(node.args[0], ast.Tuple) and len(node.args[0].elts) == 2:
+        if len(node.args) in (1, 2) and isinstance(node.args[0], ast.Tuple) and len(node.args[0].elts) == 2:
             vals = self.ev(node.args[0].elts[0])
             if isinstance(vals, Arr):
                 return self.csr_diag(node, vals)
         return self.csr(node)
 
     def csr_diag(self, node, vals):
-        if [k.arg for k in node.keywords] != ["shape"]:
+        if len(node.args) == 2 and not node.keywords:
+            shp_node = node.args[1]
+        elif len(node.args) == 1 and [k.arg for k in node.keywords] == ["shape"]:
+            shp_node = node.keywords[0].value
+        else:
             raise Bad("csr_array: expected csr_array((vals, (rows, cols)), shape=...)")
         rc = self.ev(node.args[0].elts[1])
-        shp = self.ev(node.keywords[0].value)
+        shp = self.ev(shp_node)
         if not (isinstance(rc, Tup) and len(rc.items) == 2):
             raise Bad("csr_array: argument structure")
         self.need_ndim()
